@@ -23,9 +23,11 @@ def run(chk, program, tier):
         K.ser_const(chk, program, P, marker)
     K.csum_dom(chk, program)
     from .. import wire
-    cs = wire.checksum_summary(program)
-    ok = cs['lo'] == 2 and cs['hi'] == 19 and cs['mask'] == 0xff and cs['plain_sum']
-    chk.check(ok, 'CSUM-COVER', 'calculate_canbus_checksum', file='nmea2000/utils.py', line=cs['line'], func='calculate_canbus_checksum',
-              expected='sum(packet[2:19]) & 0xff: every byte between the marker and the checksum byte (positions 2..18) is covered',
-              found={'slice': [cs['lo'], cs['hi']], 'mask': cs['mask'], 'plain_sum': cs['plain_sum']},
-              detail='' if ok else 'a packet corrupted in an uncovered position still passes the comparison and is delivered')
+    ok, found = wire.checksum_is_plain_sum_2_19(program)
+    line = program.fn('utils', 'calculate_canbus_checksum').lineno
+    if ok is None:
+        chk.unknown('CSUM-COVER', 'calculate_canbus_checksum', f"neither interpretable as a sum of bytes nor of the recognised shape: {found}", 'nmea2000/utils.py', line)
+    else:
+        chk.check(ok, 'CSUM-COVER', 'calculate_canbus_checksum', file='nmea2000/utils.py', line=line, func='calculate_canbus_checksum',
+                  expected='(sum of packet bytes 2..18) mod 256: every byte between the marker and the checksum byte is covered, each with weight 1',
+                  found=found, detail='' if ok else 'a packet corrupted in an uncovered position still passes the comparison and is delivered')
